@@ -64,7 +64,7 @@ def pe_compile_stamp(F: "bytes", o: "int") -> "int":
     return u32le(F, o + s32le(F, o + 60) + 4 + 4)
 
 
-@spec
+@specfn
 def pe_export_stamp(F: "bytes", o: "int") -> "int":
     """TimeDateStamp of the export directory of the image at o, located through the first section that contains
     the export RVA; -1 when the headers are truncated, no section contains it or the directory is out of the file"""
@@ -96,7 +96,7 @@ def raw_sum(F: "bytes", base: "int", k: "int") -> "int":
     return raw_sum(F, base, k - 1) + u32le(F, base + 40 * (k - 1) + 16)
 
 
-@spec
+@specfn
 def pe_total_size(F: "bytes", o: "int") -> "int":
     """SizeOfHeaders plus the raw sizes of all sections of the image at o; -1 if the machine is neither x86 nor x64
     or the headers are truncated"""
